@@ -5,6 +5,7 @@
 From Coq Require Import List NArith Bool.
 From V.common Require Import Wire.
 From V.C11 Require Import Model.
+From V.C11 Require HSModel.
 Import ListNotations.
 Open Scope N_scope.
 
@@ -253,7 +254,69 @@ Definition run_lcase (l : list N) : list N :=
   | None => [0]
   end.
 
+(* ---- second kind of case (first number 7000): the HandshakeService on its own (HSModel.v) ----
+   case  : 7000 nops (kind a b)* ; trace: 1 then per op: 0 | 1 kind key rd ; held(key 0..5) len *)
+Fixpoint digits7 (fuel : nat) (a : N) : list N :=
+  match fuel with
+  | O => []
+  | S f => if a mod 7 =? 0 then [] else (a mod 7 - 1) :: digits7 f (a / 7)
+  end.
+
+Definition p_hop : parser HSModel.hop :=
+  let* k := pN in let* a := pN in let* b := pN in
+  match k with
+  | 0 => if a <? 3 then pret (HSModel.HCall (HSModel.NegOut a)) else pfail
+  | 1 => if a <? 3 then pret (HSModel.HCall (HSModel.ReadIn a)) else pfail
+  | 2 => if a <? 3 then pret (HSModel.HCall (HSModel.SendIn a)) else pfail
+  | 3 => if a <? 3 then pret (HSModel.HCall (HSModel.RemOut a)) else pfail
+  | 4 => if a <? 3 then pret (HSModel.HCall (HSModel.RemIn a)) else pfail
+  | 5 => if a <? 6 then
+           match b with
+           | 0 => pret (HSModel.HEnv a HSModel.EFrame) | 1 => pret (HSModel.HEnv a HSModel.EEof) | 2 => pret (HSModel.HEnv a HSModel.EWerr)
+           | 3 => pret (HSModel.HEnv a HSModel.EFlush) | 4 => pret (HSModel.HEnv a HSModel.ETimeout) | _ => pfail
+           end
+         else pfail
+  | 6 => pret (HSModel.HPoll (digits7 6 a))
+  | _ => pfail
+  end.
+
+Definition decode_hcase (l : list N) : option (list HSModel.hop) :=
+  match l with
+  | 7000 :: rest => pall (plist p_hop) rest
+  | _ => None
+  end.
+
+Definition hkeys : list N := [0; 1; 2; 3; 4; 5].
+Definition hdump (h : HSModel.hs) : list N :=
+  map (fun k => b2n (HSModel.has k h)) hkeys ++ [N.of_nat (length (HSModel.ents h) + length (HSModel.ready h))].
+
+Definition enc_pres (o : HSModel.hop) (r : HSModel.pres) : list N :=
+  match o with
+  | HSModel.HPoll _ =>
+      match r with
+      | HSModel.PPending => [1; 0; 0; 0]
+      | HSModel.PNeg k rd => [1; 1; k; b2n rd]
+      | HSModel.PErr k => [1; 2; k; 0]
+      end
+  | _ => [0]
+  end.
+
+Fixpoint enc_hrun (ops : list HSModel.hop) (r : list (HSModel.hs * HSModel.pres)) : list N :=
+  match ops, r with
+  | o :: ops', (h, x) :: r' => enc_pres o x ++ hdump h ++ enc_hrun ops' r'
+  | _, _ => []
+  end.
+
+Definition run_hcase (l : list N) : list N :=
+  match decode_hcase l with
+  | Some ops => 1 :: enc_hrun ops (HSModel.hrun HSModel.hs0 ops)
+  | None => [0]
+  end.
+
+Definition is_hcase (l : list N) : bool := match l with 7000 :: _ => true | _ => false end.
+
 Definition run_case (l : list N) : list N :=
+  if is_hcase l then run_hcase l else
   if case_cap l =? 0 then run_ecase l else run_lcase l.
 
 (* ---- decoding a trace ---- *)
@@ -642,7 +705,39 @@ Definition lverdict (case trace : list N) : N :=
   | _, _ => F_GEN
   end.
 
+(* ---- oracle for HandshakeService traces: what NotificationProtocol relies on (theorems C11_hs_...): an event
+   concerns a substream the service holds, Negotiated hands the substream out (it is gone afterwards), an
+   error leaves it in the map until the owner removes it, calls and the environment produce no events ---- *)
+Fixpoint hcheck (held : list N) (ops : list HSModel.hop) (tr : list N) : bool :=
+  match ops with
+  | [] => match tr with [] => true | _ => false end
+  | o :: ops' =>
+      match o, tr with
+      | HSModel.HPoll _, 1 :: kind :: k :: rd :: h0 :: h1 :: h2 :: h3 :: h4 :: h5 :: len :: rest =>
+          let now := [h0; h1; h2; h3; h4; h5] in
+          let was := nth (N.to_nat k) held 0 in
+          let is_ := nth (N.to_nat k) now 0 in
+          match kind with
+          | 0 => true
+          | 1 => (was =? 1) && (is_ =? 0)
+          | 2 => (was =? 1) && (is_ =? 1)
+          | _ => false
+          end && hcheck now ops' rest
+      | (HSModel.HCall _ | HSModel.HEnv _ _), 0 :: h0 :: h1 :: h2 :: h3 :: h4 :: h5 :: len :: rest =>
+          hcheck [h0; h1; h2; h3; h4; h5] ops' rest
+      | _, _ => false
+      end
+  end.
+
+Definition hverdict (case trace : list N) : N :=
+  match decode_hcase case, trace with
+  | Some ops, 1 :: body => flag (hcheck [0; 0; 0; 0; 0; 0] ops body) F_GEN
+  | None, [0] => 0
+  | _, _ => F_GEN
+  end.
+
 Definition verdict_any (case trace : list N) : N :=
+  if is_hcase case then hverdict case trace else
   if case_cap case =? 0 then verdict case trace else lverdict case trace.
 
 Definition prop_ok (case trace : list N) : bool := verdict_any case trace =? 0.
